@@ -23,7 +23,7 @@ RULE_NAMES = ["X", "Y", "Z", "W", "v0", "v1", "s"]
 PROP_RULE = ("a case is one program (dictionary, <= 6 facts, 1-3 positive safe rules with 1-3 premises and 1-2 conclusions, "
              "constants and repeated variables in every position, occasionally a variable predicate, recursive "
              "templates: right/left/doubly recursive ancestor, symmetry, 3-premise chain; in two thirds of the random "
-             "programs rules may carry 1-2 filters: numeric comparisons on a premise variable or =, !=, < between two "
+             "programs rules may carry 1-2 filters: numeric comparisons on a premise variable or any of the six operators between two "
              "premise variables, over dictionaries with numeric strings) and one goal pattern with 0-3 "
              "variables named from {X,Y,s,v0,v1,v7,x} (rule variables from {X,Y,Z,W,v0,v1,s}); the real engine's answer "
              "multiset (goal with resolve_term applied per returned binding map) is compared with the model's, and with "
@@ -139,13 +139,16 @@ def least_model(case, use_filters=True):
             "=": lambda a, b: a == b, "!=": lambda a, b: a != b}
 
     def holds(f, e):
-        """rules.rs evaluate_filters on a ground rule instance: a variable value compares identifiers (= and != only,
-        every other operator accepts), a numeric value compares the numeric value of the bound constant"""
+        """rules.rs evaluate_filters on a ground rule instance: a variable value compares identifiers for = and != and
+        numeric values for <, <=, >, >=; a numeric value compares the numeric value of the bound constant"""
         lhs = e[f["x"]]
+        nv = lambda c: nums[c] if c < len(nums) else 0
         if "var" in f:
             rhs = e[f["var"]]
-            return cmpf[f["op"]](lhs, rhs) if f["op"] in ("=", "!=") else True
-        return cmpf[f["op"]](nums[lhs] if lhs < len(nums) else 0, f["num"])
+            if f["op"] in ("=", "!="):
+                return cmpf[f["op"]](lhs, rhs)
+            return cmpf[f["op"]](nv(lhs), nv(rhs))      # order operators: numeric values of both terms (7537bd2)
+        return cmpf[f["op"]](nv(lhs), f["num"])
     height = {tuple(f): 0 for f in case["facts"]}
     h = 0
     while True:
@@ -272,7 +275,7 @@ def random_program(rng, filters=False):
             for _ in range(rng.choice([1, 1, 2])):
                 if len(pv) >= 2 and rng.random() < 0.4:
                     x, y = rng.sample(pv, 2)
-                    r["filt"].append({"x": x, "op": rng.choice(["=", "!=", "!=", "<"]), "var": y})
+                    r["filt"].append({"x": x, "op": rng.choice(["=", "!=", "<", "<=", ">", ">=", "<", ">"]), "var": y})
                 elif pv:
                     r["filt"].append({"x": rng.choice(pv), "op": rng.choice(list(OPS)), "num": rng.choice([0, 1, 2, 3, 5])})
         rules.append(r)
